@@ -39,6 +39,8 @@ type Runner struct {
 	Reexecs        int
 	FollowerChecks int
 	FreshReplays   int
+	etxIDs         map[string]int
+	etxEmitted     map[int]etxRec
 }
 
 type Problem struct {
@@ -470,6 +472,7 @@ func (r *Runner) MineOn(parent int, wantOrder int) (int, error) {
 	ev["inbound_etx"] = netx
 	ev["inbound_conv"] = nconv
 	ev["outbound_etx"] = len(zb.OutboundEtxs())
+	r.etxEvent(ev, zb)
 	r.Events = append(r.Events, ev)
 	r.Prev = after
 	if r.Mined == nil {
@@ -661,4 +664,99 @@ func (r *Runner) WriteEvents(path string) error {
 		}
 	}
 	return nil
+}
+
+// ---- cross-chain transactions (spec/EtxRoute.tla): identity = (originating tx hash, index)
+
+type etxRec struct {
+	id    int
+	conv  bool
+	typ   uint64
+	value string
+	to    string
+}
+
+func (r *Runner) etxID(tx *types.Transaction) int {
+	k := fmt.Sprintf("%x:%d", tx.OriginatingTxHash().Bytes(), tx.ETXIndex())
+	if r.etxIDs == nil {
+		r.etxIDs = map[string]int{}
+		r.etxEmitted = map[int]etxRec{}
+	}
+	if v, ok := r.etxIDs[k]; ok {
+		return v
+	}
+	v := len(r.etxIDs) + 1
+	r.etxIDs[k] = v
+	return v
+}
+
+func (r *Runner) etxEvent(ev map[string]interface{}, zb *types.WorkObject) {
+	emit := [][]int{}
+	for _, e := range zb.OutboundEtxs() {
+		id := r.etxID(e)
+		conv := 0
+		if types.IsConversionTx(e) {
+			conv = 1
+		}
+		if _, seen := r.etxEmitted[id]; !seen {
+			r.etxEmitted[id] = etxRec{id, conv == 1, e.EtxType(), e.Value().String(), e.To().Hex()}
+		}
+		emit = append(emit, []int{id, conv})
+	}
+	exec := []int{}
+	altered := []int{}
+	check := func(e *types.Transaction) int {
+		id := r.etxID(e)
+		if rec, ok := r.etxEmitted[id]; ok {
+			same := rec.to == e.To().Hex()
+			if !rec.conv {
+				same = same && rec.value == e.Value().String() && rec.typ == e.EtxType()
+			} else if e.EtxType() != uint64(types.ConversionType) && e.EtxType() != uint64(types.ConversionRevertType) {
+				same = false
+			}
+			if !same {
+				altered = append(altered, id)
+			}
+		} else {
+			altered = append(altered, -id) // executed / delivered but never emitted by a block this node has seen
+		}
+		return id
+	}
+	for _, e := range zb.Body().ExternalTransactions() {
+		exec = append(exec, check(e))
+	}
+	inbound := []int{}
+	for _, e := range rawdb.ReadInboundEtxs(r.E.Net.DBs[mininet.Zone], zb.Hash()) {
+		inbound = append(inbound, check(e))
+	}
+	queue := []int{}
+	queueOK := true
+	st, err := r.E.Net.ZoneCore().Processor().StateAt(zb.EVMRoot(), zb.EtxSetRoot(), zb.QuaiStateSize())
+	if err != nil {
+		queueOK = false
+	} else {
+		oldest, e1 := st.GetOldestIndex()
+		newest, e2 := st.GetNewestIndex()
+		if e1 != nil || e2 != nil {
+			queueOK = false
+		} else {
+			for i := new(big.Int).Set(oldest); i.Cmp(newest) < 0 && len(queue) < 10000; i.Add(i, big.NewInt(1)) {
+				e, err := st.ReadETX(i)
+				if err != nil || e == nil {
+					queueOK = false
+					break
+				}
+				queue = append(queue, check(e))
+			}
+		}
+		if st.ETXRoot() != zb.EtxSetRoot() {
+			queueOK = false
+		}
+	}
+	ev["etx_emit"] = emit
+	ev["etx_exec"] = exec
+	ev["etx_inbound"] = inbound
+	ev["etx_queue"] = queue
+	ev["etx_queue_ok"] = queueOK
+	ev["etx_altered"] = altered
 }
